@@ -7,11 +7,14 @@
    the thread body, of run() and of cont() is a program counter; one `step` is the code between
    two consecutive control points (they are the yield points of hooks/C17-yield-points.patch).
    A blocked operation (send on a full channel, park without token, join of a live thread,
-   recv on an empty channel of a live thread) is a step that is NOT enabled (step = None).
+   recv on an empty channel of a live thread, Mutex::lock while the guard is held) is a step that is NOT enabled (step = None).
    Schedules are lists of thread ids.
 
    The parse itself is abstract: the list of rule entries (rule, position) at which the VM calls
    the listener and the final outcome are parameters carried by the run command.
+   The Mutex of the breakpoint set has explicit acquire and release steps (the release follows the
+   acquire without a yield point in the code as it is); it is never poisoned: the only panic of the
+   parsing thread happens inside vm.parse after an abort, where no guard is held.
    thread::park is modelled with its token and (flag `spur` off) without spurious wake-ups. *)
 From Coq Require Import List Arith Bool.
 Import ListNotations.
@@ -42,7 +45,9 @@ Inductive ppc :=
 | PNone                                            (* no thread was ever spawned *)
 | PStart (es : list entry) (o : outcome)           (* t_start: closure entered *)
 | PLoad (es : list entry) (o : outcome)            (* l_load: listener entered for hd es, before is_done.load *)
-| PLock (e : entry) (es : list entry) (o : outcome)(* l_lock: flag was false, before breakpoints.lock/contains *)
+| PLock (e : entry) (es : list entry) (o : outcome)(* l_lock: flag was false, before breakpoints.lock() *)
+| PHeld (e : entry) (es : list entry) (o : outcome)(* guard held: before lock.contains(&rule) and the drop of the guard
+                                                      (no yield point: nothing else happens in between) *)
 | PSend (e : entry) (es : list entry) (o : outcome)(* l_send: rule is a breakpoint, before rsender.send *)
 | PPark (es : list entry) (o : outcome)            (* l_park: event sent, before thread::park *)
 | PFinal (ev : event)                              (* t_final: vm.parse returned (literal code: before the final send;
@@ -63,7 +68,9 @@ Inductive cpc :=
 | RReset (es : list entry) (o : outcome)           (* r_reset: before is_done.store(false) *)
 | RSpawn (es : list entry) (o : outcome)           (* r_spawn: before thread::spawn / self.handle = Some *)
 | KLoad                                            (* c_load: cont(), before is_done.load *)
-| KUnpark.                                         (* c_unpark: before handle.thread().unpark() *)
+| KUnpark                                          (* c_unpark: before handle.thread().unpark() *)
+| EAdd (r : rule)                                  (* add_breakpoint: guard held, before insert and drop *)
+| EDel (r : rule).                                 (* delete_breakpoint: guard held, before remove and drop *)
 
 (* ghost log of the current run, newest first *)
 Inductive act :=
@@ -88,7 +95,8 @@ Record state := {
   handle : bool;          (* self.handle.is_some() *)
   token : bool;           (* park token of the current parsing thread *)
   is_done : bool;
-  bps : list rule;        (* the breakpoint set (under its mutex: every access is one step) *)
+  bps : list rule;        (* the breakpoint set *)
+  mtx : bool;             (* its Mutex is held (by the thread whose control point says so) *)
   chan : list event;      (* channel of the current run, oldest first *)
   log : list act;         (* ghost *)
   undisc : bool;          (* ghost: in this run a cont() unparked although no received breakpoint event was unanswered *)
@@ -99,7 +107,7 @@ Record state := {
 
 Definition init (cs : list cmd) (b : list rule) : state :=
   {| cmds := cs; c_pc := CIdle; p_pc := PNone; handle := false; token := false; is_done := false;
-     bps := b; chan := []; log := []; undisc := false; out := []; cur_es := []; cur_o := OEof |}.
+     bps := b; mtx := false; chan := []; log := []; undisc := false; out := []; cur_es := []; cur_o := OEof |}.
 
 Inductive tid := C | P.
 
@@ -119,28 +127,31 @@ Definition next_pc (es : list entry) (o : outcome) : ppc :=
 
 Definition set_c (s : state) (pc : cpc) : state :=
   {| cmds := cmds s; c_pc := pc; p_pc := p_pc s; handle := handle s; token := token s; is_done := is_done s;
-     bps := bps s; chan := chan s; log := log s; undisc := undisc s; out := out s; cur_es := cur_es s; cur_o := cur_o s |}.
+     bps := bps s; mtx := mtx s; chan := chan s; log := log s; undisc := undisc s; out := out s; cur_es := cur_es s; cur_o := cur_o s |}.
 Definition set_p (s : state) (pc : ppc) : state :=
   {| cmds := cmds s; c_pc := c_pc s; p_pc := pc; handle := handle s; token := token s; is_done := is_done s;
-     bps := bps s; chan := chan s; log := log s; undisc := undisc s; out := out s; cur_es := cur_es s; cur_o := cur_o s |}.
+     bps := bps s; mtx := mtx s; chan := chan s; log := log s; undisc := undisc s; out := out s; cur_es := cur_es s; cur_o := cur_o s |}.
 Definition add_log (s : state) (a : act) : state :=
   {| cmds := cmds s; c_pc := c_pc s; p_pc := p_pc s; handle := handle s; token := token s; is_done := is_done s;
-     bps := bps s; chan := chan s; log := a :: log s; undisc := undisc s; out := out s; cur_es := cur_es s; cur_o := cur_o s |}.
+     bps := bps s; mtx := mtx s; chan := chan s; log := a :: log s; undisc := undisc s; out := out s; cur_es := cur_es s; cur_o := cur_o s |}.
 Definition add_out (s : state) (x : obs) : state :=
   {| cmds := cmds s; c_pc := c_pc s; p_pc := p_pc s; handle := handle s; token := token s; is_done := is_done s;
-     bps := bps s; chan := chan s; log := log s; undisc := undisc s; out := x :: out s; cur_es := cur_es s; cur_o := cur_o s |}.
+     bps := bps s; mtx := mtx s; chan := chan s; log := log s; undisc := undisc s; out := x :: out s; cur_es := cur_es s; cur_o := cur_o s |}.
 Definition set_token (s : state) (b : bool) : state :=
   {| cmds := cmds s; c_pc := c_pc s; p_pc := p_pc s; handle := handle s; token := b; is_done := is_done s;
-     bps := bps s; chan := chan s; log := log s; undisc := undisc s; out := out s; cur_es := cur_es s; cur_o := cur_o s |}.
+     bps := bps s; mtx := mtx s; chan := chan s; log := log s; undisc := undisc s; out := out s; cur_es := cur_es s; cur_o := cur_o s |}.
 Definition set_done (s : state) (b : bool) : state :=
   {| cmds := cmds s; c_pc := c_pc s; p_pc := p_pc s; handle := handle s; token := token s; is_done := b;
-     bps := bps s; chan := chan s; log := log s; undisc := undisc s; out := out s; cur_es := cur_es s; cur_o := cur_o s |}.
+     bps := bps s; mtx := mtx s; chan := chan s; log := log s; undisc := undisc s; out := out s; cur_es := cur_es s; cur_o := cur_o s |}.
 Definition set_chan (s : state) (c : list event) : state :=
   {| cmds := cmds s; c_pc := c_pc s; p_pc := p_pc s; handle := handle s; token := token s; is_done := is_done s;
-     bps := bps s; chan := c; log := log s; undisc := undisc s; out := out s; cur_es := cur_es s; cur_o := cur_o s |}.
+     bps := bps s; mtx := mtx s; chan := c; log := log s; undisc := undisc s; out := out s; cur_es := cur_es s; cur_o := cur_o s |}.
+Definition set_mtx (s : state) (b : bool) : state :=
+  {| cmds := cmds s; c_pc := c_pc s; p_pc := p_pc s; handle := handle s; token := token s; is_done := is_done s;
+     bps := bps s; mtx := b; chan := chan s; log := log s; undisc := undisc s; out := out s; cur_es := cur_es s; cur_o := cur_o s |}.
 Definition set_bps (s : state) (b : list rule) : state :=
   {| cmds := cmds s; c_pc := c_pc s; p_pc := p_pc s; handle := handle s; token := token s; is_done := is_done s;
-     bps := b; chan := chan s; log := log s; undisc := undisc s; out := out s; cur_es := cur_es s; cur_o := cur_o s |}.
+     bps := b; mtx := mtx s; chan := chan s; log := log s; undisc := undisc s; out := out s; cur_es := cur_es s; cur_o := cur_o s |}.
 
 (* blocking send on the bounded channel: enabled iff there is room *)
 Definition send (cf : config) (s : state) (ev : event) : option state :=
@@ -156,9 +167,11 @@ Definition step_p (cf : config) (s : state) : option state :=
       if is_done s then                                            (* return true: the VM fails every further rule *)
         Some (add_log (set_p s (if e_panic e then PDead else PFinal EvAbort)) AAbort)
       else Some (set_p s (PLock e es o))
-  | PLock e es o =>
+  | PLock e es o =>                                              (* Mutex::lock blocks while the guard is held elsewhere *)
+      if mtx s then None else Some (set_mtx (set_p s (PHeld e es o)) true)
+  | PHeld e es o =>
       let b := mem (e_rule e) (bps s) in
-      Some (add_log (set_p s (if b then PSend e es o else next_pc es o)) (ALook e (bps s)))
+      Some (add_log (set_mtx (set_p s (if b then PSend e es o else next_pc es o)) false) (ALook e (bps s)))
   | PSend e es o =>
       match send cf s (EvBp (e_rule e) (e_pos e)) with
       | Some s' => Some (set_p s' (PPark es o))
@@ -179,18 +192,18 @@ Definition step_p (cf : config) (s : state) : option state :=
 (* ---- the controller: run(), cont(), breakpoint edits, recv ---- *)
 Definition pop_cmd (s : state) (cs : list cmd) : state :=
   {| cmds := cs; c_pc := c_pc s; p_pc := p_pc s; handle := handle s; token := token s; is_done := is_done s;
-     bps := bps s; chan := chan s; log := log s; undisc := undisc s; out := out s; cur_es := cur_es s; cur_o := cur_o s |}.
+     bps := bps s; mtx := mtx s; chan := chan s; log := log s; undisc := undisc s; out := out s; cur_es := cur_es s; cur_o := cur_o s |}.
 Definition set_handle (s : state) (b : bool) : state :=
   {| cmds := cmds s; c_pc := c_pc s; p_pc := p_pc s; handle := b; token := token s; is_done := is_done s;
-     bps := bps s; chan := chan s; log := log s; undisc := undisc s; out := out s; cur_es := cur_es s; cur_o := cur_o s |}.
+     bps := bps s; mtx := mtx s; chan := chan s; log := log s; undisc := undisc s; out := out s; cur_es := cur_es s; cur_o := cur_o s |}.
 Definition isnil {A} (l : list A) : bool := match l with [] => true | _ => false end.
 
 Definition spawn (s : state) (es : list entry) (o : outcome) : state :=
   {| cmds := cmds s; c_pc := CIdle; p_pc := PStart es o; handle := true; token := false; is_done := is_done s;
-     bps := bps s; chan := []; log := []; undisc := false; out := out s; cur_es := es; cur_o := o |}.
+     bps := bps s; mtx := mtx s; chan := []; log := []; undisc := false; out := out s; cur_es := es; cur_o := o |}.
 Definition set_undisc (s : state) (b : bool) : state :=
   {| cmds := cmds s; c_pc := c_pc s; p_pc := p_pc s; handle := handle s; token := token s; is_done := is_done s;
-     bps := bps s; chan := chan s; log := log s; undisc := b; out := out s; cur_es := cur_es s; cur_o := cur_o s |}.
+     bps := bps s; mtx := mtx s; chan := chan s; log := log s; undisc := b; out := out s; cur_es := cur_es s; cur_o := cur_o s |}.
 
 Definition step_c (cf : config) (s : state) : option state :=
   match c_pc s with
@@ -202,8 +215,8 @@ Definition step_c (cf : config) (s : state) : option state :=
           if handle s then Some (set_c (set_handle s false) (RLoad (isnil (chan s)) es o))   (* self.handle.take() *)
           else Some (set_c s (RReset es o))
       | CCont :: cs => Some (set_c (pop_cmd s cs) KLoad)
-      | CAdd r :: cs => let s := pop_cmd s cs in Some (set_bps s (if mem r (bps s) then bps s else r :: bps s))
-      | CDel r :: cs => let s := pop_cmd s cs in Some (set_bps s (remove_rule r (bps s)))
+      | CAdd r :: cs => if mtx s then None else Some (set_mtx (set_c (pop_cmd s cs) (EAdd r)) true)
+      | CDel r :: cs => if mtx s then None else Some (set_mtx (set_c (pop_cmd s cs) (EDel r)) true)
       | CRecv :: cs =>
           match p_pc s, chan s with
           | PNone, _ => Some (add_out (pop_cmd s cs) ONoRx)               (* no run yet: there is no receiver *)
@@ -227,6 +240,8 @@ Definition step_c (cf : config) (s : state) : option state :=
       if is_done s then Some (add_out (set_c s CIdle) OContEof)
       else if handle s then Some (set_c s KUnpark)
       else Some (add_out (set_c s CIdle) OContNoRun)
+  | EAdd r => Some (set_mtx (set_bps (set_c s CIdle) (if mem r (bps s) then bps s else r :: bps s)) false)
+  | EDel r => Some (set_mtx (set_bps (set_c s CIdle) (remove_rule r (bps s))) false)
   | KUnpark =>
       let disciplined := count is_cont (log s) <? count is_bp_recv (log s) in
       Some (add_out (add_log (set_undisc (set_token (set_c s CIdle) true) (undisc s || negb disciplined)) ACont) OContOk)
